@@ -227,6 +227,11 @@ def check(ctx):
             ctx.ob("C11.d", f"{f.short}: {ast.unparse(call)[:50]}", ok,
                    "not along the batch axis" if ok else "reduces the batch axis outside state.batchreduce: a sum reduction would no longer be the sum of per-sample steps",
                    P.loc(f, call), call)
+        other = [x for x in ast.walk(loop) if isinstance(x, ast.Call) and isinstance(x.func, ast.Attribute) and "batchreduce" in x.func.attr
+                 and dotted(x.func) != "state.batchreduce"]
+        ctx.ob("C11.d", f"{f.short}: every batch reduction is the cell's configured one (state.batchreduce)", not other,
+               "" if not other else f"`{ast.unparse(other[0].func)}` reduces a term with a different reduction than the cell was registered with: "
+               f"with batch_reduction=sum the step is no longer the sum of the per-sample steps", P.loc(f, other[0]) if other else f.where)
         br = [x for x in ast.walk(loop) if isinstance(x, ast.Call) and dotted(x.func) == "state.batchreduce"]
         ok = bool(br) and all(len(x.args) == 2 and isinstance(x.args[1], ast.Constant) and x.args[1].value == 0 for x in br)
         ctx.ob("C11.d", f"{f.short}: batch reduction = state.batchreduce(., 0)", ok, f"{len(br)} calls", f.where)
@@ -234,5 +239,31 @@ def check(ctx):
             pat = [a.value for a in x.args if isinstance(a, ast.Constant) and isinstance(a.value, str)]
             ok = pat == ["b ... r, b ... r -> b ..."]
             ctx.ob("C11.d", f"{f.short}: pair contraction keeps the batch axis", ok, f"{pat}", P.loc(f, x), x)
+    # ---------------- (e) the adaptation (the one documented cross-sample coupling in the neurons) runs only when asked for
+    from .. import boolpath
+    from ..model import strip_doc as _sd
+    nad = 0
+    for c in scope_classes:
+        if not c.is_subclass_of("Neuron"):
+            continue
+        f = c.methods.get("forward")
+        if f is None or "adapt" not in [a.arg for a in f.node.args.args + f.node.args.kwonlyargs]:
+            continue
+        nad += 1
+        atoms = {"adapt": "A", "adapt is None": "N", "self.training": "T"}
+        target = lambda st: isinstance(st, ast.Assign) and any(is_self_attr(t) and "adaptation" in t.attr for t in st.targets)
+        try:
+            names, tb = boolpath.table(_sd(f.node.body), atoms, target, constraint=lambda a: not (a["N"] and a["A"]))
+            bad = []
+            for vals, got in tb.items():
+                a = dict(zip(names, vals))
+                want = a["A"] or (a["N"] and a["T"])
+                if got != want:
+                    bad.append(f"adapt={'None' if a['N'] else a['A']}, training={a['T']}: adapts={got}, expected {want}")
+            ctx.ob("C11.e", f"{f.short}: adaptations are updated iff adapt, or adapt is None and the module is training", not bad,
+                   "; ".join(bad) if bad else "adapt=False freezes the batch-reduced adaptation in every mode", f.where)
+        except boolpath.Undecided as e:
+            ctx.ob("C11.e", f"{f.short}: adaptation guard", False, f"guard atom `{e}` not recognised", f.where)
+    ctx.require("C11.e", "adaptive neuron classes", nad, 4)
     ctx.assume("operations not in the axis-mixing table are element-wise or per-sample (F.linear, F.unfold/fold, torch.matmul with an unbatched left operand, view(-1, *shape))")
     ctx.assume("user-supplied transforms / combine functions / kernels are batch-pointwise")
